@@ -143,6 +143,18 @@ pub fn split_flavour(t: &[String]) -> (&[String], u64) {
     (t, 0)
 }
 pub fn push_flavour(mut t: Vec<String>, f: u64) -> Vec<String> { if f != 0 { t.push(format!("~f{}", f)); } t }
+/// the six BED12 columns after strand (thickStart, thickEnd, itemRgb, blockCount, blockSizes, blockStarts) for two records
+/// out of three: a spliced record whose blocks do NOT add up to end - start (an intron), a single block, or no columns.
+/// `len`, `overlap`, the tilings and everything else over `BEDLike` are functions of chrom / start / end alone.
+pub fn bed12_columns(r: &Rec, i: usize) -> bed_utils::bed::OptionalFields {
+    let len = r.end.saturating_sub(r.start);
+    let v: Vec<String> = match i % 3 {
+        0 => vec![],
+        1 => vec![r.start.to_string(), r.end.to_string(), "255,0,0".into(), "2".into(), format!("{},{},", len / 3 + 1, len / 4 + 1), format!("0,{},", len - len / 4)],
+        _ => vec![r.start.to_string(), r.start.to_string(), "0".into(), "1".into(), format!("{},", len), "0,".into()],
+    };
+    bed_utils::bed::OptionalFields::from(v)
+}
 pub const N_KINDS: u64 = 10;
 pub const N_FLAVOURS: u64 = N_KINDS * 12;
 /// same type, field variant advanced by `i` (per-record variation inside one case)
@@ -165,7 +177,7 @@ macro_rules! with_bedlike {
             2 => { let $x: BED<4> = BED::new(r.chrom.clone(), r.start, r.end, name, score, strand, OptionalFields::default()); $body }
             3 => { let $x: BED<5> = BED::new(r.chrom.clone(), r.start, r.end, name, score, strand, OptionalFields::default()); $body }
             4 => { let $x: BED<6> = BED::new(r.chrom.clone(), r.start, r.end, name, score, strand, OptionalFields::default()); $body }
-            5 => { let $x: BED<12> = BED::new(r.chrom.clone(), r.start, r.end, name, score, strand, OptionalFields::default()); $body }
+            5 => { let $x: BED<12> = BED::new(r.chrom.clone(), r.start, r.end, name, score, strand, $crate::props::common::bed12_columns(r, var as usize)); $body }
             6 => { let $x = NarrowPeak { chrom: r.chrom.clone(), start: r.start, end: r.end, name, score, strand, signal_value: 1.5, p_value: None, q_value: Some(0.5), peak: 3 }; $body }
             7 => { let $x = BroadPeak { chrom: r.chrom.clone(), start: r.start, end: r.end, name, score, strand, signal_value: 1.5, p_value: Some(2.0), q_value: None }; $body }
             8 => { let $x: BedGraph<i64> = BedGraph::new(r.chrom.clone(), r.start, r.end, -7); $body }
@@ -185,6 +197,7 @@ macro_rules! with_bedlikes {
              if (var / 3) % 2 == 0 { None } else { Some(format!("nm{}", i)) },
              if (var / 6) % 2 == 0 { None } else { Score::try_from(500u16).ok() })
         };
+        macro_rules! bed12 { () => { rs.iter().enumerate().map(|(i, r)| { let (st, nm, sc) = fields(i); let b: BED<12> = BED::new(r.chrom.clone(), r.start, r.end, nm, sc, st, $crate::props::common::bed12_columns(r, i)); b }).collect::<Vec<_>>() }; }
         macro_rules! bedn { ($n:literal) => { rs.iter().enumerate().map(|(i, r)| { let (st, nm, sc) = fields(i); let b: BED<$n> = BED::new(r.chrom.clone(), r.start, r.end, nm, sc, st, OptionalFields::default()); b }).collect::<Vec<_>>() }; }
         match fl % $crate::props::common::N_KINDS {
             0 => { let $xs = rs.iter().map(|r| r.gr()).collect::<Vec<_>>(); $body }
@@ -192,9 +205,9 @@ macro_rules! with_bedlikes {
             2 => { let $xs = bedn!(4); $body }
             3 => { let $xs = bedn!(5); $body }
             4 => { let $xs = bedn!(6); $body }
-            5 => { let $xs = bedn!(12); $body }
-            6 => { let $xs = rs.iter().enumerate().map(|(i, r)| { let (strand, name, score) = fields(i); NarrowPeak { chrom: r.chrom.clone(), start: r.start, end: r.end, name, score, strand, signal_value: 1.5, p_value: None, q_value: Some(0.5), peak: 3 } }).collect::<Vec<_>>(); $body }
-            7 => { let $xs = rs.iter().enumerate().map(|(i, r)| { let (strand, name, score) = fields(i); BroadPeak { chrom: r.chrom.clone(), start: r.start, end: r.end, name, score, strand, signal_value: 1.5, p_value: Some(2.0), q_value: None } }).collect::<Vec<_>>(); $body }
+            5 => { let $xs = bed12!(); $body }
+            6 => { let $xs = rs.iter().enumerate().map(|(i, r)| { let (strand, name, score) = fields(i); NarrowPeak { chrom: r.chrom.clone(), start: r.start, end: r.end, name, score, strand, signal_value: 1.5 + i as f64, p_value: if i % 2 == 0 { None } else { Some(i as f64) }, q_value: Some(0.5 + (i % 3) as f64), peak: 3 } }).collect::<Vec<_>>(); $body }
+            7 => { let $xs = rs.iter().enumerate().map(|(i, r)| { let (strand, name, score) = fields(i); BroadPeak { chrom: r.chrom.clone(), start: r.start, end: r.end, name, score, strand, signal_value: 1.5 + i as f64, p_value: Some(2.0 + i as f64), q_value: if i % 2 == 0 { None } else { Some(i as f64) } } }).collect::<Vec<_>>(); $body }
             8 => { let $xs = rs.iter().map(|r| BedGraph::<i64>::new(r.chrom.clone(), r.start, r.end, -7)).collect::<Vec<_>>(); $body }
             _ => { let $xs = rs.iter().map(|r| BedGraph::<f64>::new(r.chrom.clone(), r.start, r.end, 0.25)).collect::<Vec<_>>(); $body }
         }
